@@ -3,6 +3,7 @@ package alephium
 import (
 	"context"
 	"encoding/hex"
+	"time"
 
 	sdk "github.com/alephium/go-sdk"
 	"github.com/alephium/wormhole-fork/node/pkg/vaa"
@@ -61,8 +62,11 @@ func (w *Watcher) handleObsvRequest(ctx context.Context, logger *zap.Logger, cli
 			}
 
 			confirmed := make([]*reobservedEvent, 0)
+			now := time.Now().UnixMilli()
 			for _, event := range events {
-				if event.header.Height+int32(event.confirmations) <= *currentHeight {
+				// same rule as the polling path: block confirmations and confirmation time
+				duration := getConfirmationDuration(w.isMainnet, event.isTransfer, event.confirmations)
+				if event.header.Height+int32(event.confirmations) <= *currentHeight && event.header.Timestamp+duration <= now {
 					logger.Info("re-observed event",
 						zap.String("txId", txId),
 						zap.String("blockHash", blockHash),
@@ -125,7 +129,8 @@ func (w *Watcher) getGovernanceEventsByTxId(
 
 	reobservedEvents := make([]*reobservedEvent, 0)
 	for _, event := range events.Events {
-		if event.EventIndex != WormholeMessageEventIndex {
+		// only WormholeMessage events of the governance contract, in the block the tx is confirmed in
+		if event.ContractAddress != address || event.BlockHash != blockHash || event.EventIndex != WormholeMessageEventIndex {
 			continue
 		}
 
@@ -150,6 +155,7 @@ func (w *Watcher) getGovernanceEventsByTxId(
 		reobservedEvents = append(reobservedEvents, &reobservedEvent{
 			&contractEvent,
 			msg.consistencyLevel,
+			msg.IsTransferTokenVAA(),
 			header,
 			txId,
 		})
@@ -160,6 +166,7 @@ func (w *Watcher) getGovernanceEventsByTxId(
 type reobservedEvent struct {
 	*sdk.ContractEventByTxId
 	confirmations uint8
+	isTransfer    bool
 	header        *sdk.BlockHeaderEntry
 	txId          string
 }
